@@ -11,6 +11,9 @@ from .s3 import InjectedOSError, InjectedReadError, InjectedBrokenPipe
 
 
 def scratch_root():
+    r = os.environ.get('VT_SCRATCH_ROOT')
+    if r and os.path.isdir(r):
+        return r
     for d in ('/dev/shm', os.environ.get('TMPDIR') or '/tmp'):
         if os.path.isdir(d) and os.access(d, os.W_OK):
             return d
